@@ -109,7 +109,8 @@ files number their parts `sentParts % partsLimit`, big files with the plain coun
 `FileTotalParts` is read from `upload.totalParts` when the request is built. -/
 theorem loop_structure :
     Facts.C32.smallPartIsModLimit = true ∧ Facts.C32.bigPartIsCounter = true ∧
-    Facts.C32.md5ViaTeeReader = true ∧ Facts.C32.totalPartsReadAtSend = true := by decide
+    Facts.C32.md5ViaTeeReader = true ∧ Facts.C32.totalPartsReadAtSend = true ∧
+    Facts.C32.readFullLoops = true := by decide
 
 /-- The unknown-size `totalParts` race, made explicit: a request is flagged "may carry −1 instead of
 the final count" only in an unknown-size upload whose source ends with a short read, and never for the
